@@ -12,16 +12,18 @@ Section Fns.
   Definition half : F := lit (FLit (1 # 2)%Q 4602678819172646912 1056964608).
   Definition quarter : F := lit (FLit (1 # 4)%Q 4598175219545276416 1048576000).
   Definition nthd (x : list D) (i : nat) : D := nth i x (zero : D).
-  (* f_j(x) = e_j + sum_i (x_i * x_i * x_{(i+1) mod n}) * c(j,i) + x_{j mod n} * d_j; a constant e_j (no derivative parts) for odd j >= 3 *)
+  (* f_j(x) = e_j + sum_i (x_i * x_i * x_{(i+1) mod n}) * c(j,i) + [x_0 / (x_1^2 + 3) if n >= 2] + x_{j mod n} * d_j; a constant e_j (no derivative parts) for odd j >= 3 *)
   Definition poly (x : list D) (j : nat) : D :=
     let n := length x in
     if (Nat.leb 3 j && Nat.odd j)%bool then (ofF (half * (castZ (Z.of_nat j) : F)) : D) else
     let acc := fold_left (fun acc i => acc + (nthd x i * nthd x i * nthd x ((i + 1) mod n)) * cji j i) (seq 0 n)
                          (ofF (half * (castZ (Z.of_nat j) : F)) : D) in
+    let acc := if Nat.leb 2 n then acc + nthd x 0 / (nthd x 1 * nthd x 1 + (castZ 3 : F)) else acc in
     if Nat.eqb n 0 then acc else acc + nthd x (j mod n) * ((castZ 2 : F) + (castZ (Z.of_nat j) : F)).
-  (* h(x, y) = 1/4 + sum_i sum_k (x_i * y_k * y_k) * c(i,k) + sum_i x_i * (2 + i) *)
+  (* h(x, y) = 1/4 + sum_i sum_k (x_i * y_k * y_k) * c(i,k) + x_0 / (y_0^2 + 3) + sum_i x_i * (2 + i) *)
   Definition poly2 (x y : list D) : D :=
     let a1 := fold_left (fun acc i => fold_left (fun acc k => acc + (nthd x i * nthd y k * nthd y k) * cji i k) (seq 0 (length y)) acc)
                         (seq 0 (length x)) (ofF quarter : D) in
+    let a1 := if (Nat.leb 1 (length x) && Nat.leb 1 (length y))%bool then a1 + nthd x 0 / (nthd y 0 * nthd y 0 + (castZ 3 : F)) else a1 in
     fold_left (fun acc i => acc + nthd x i * ((castZ 2 : F) + (castZ (Z.of_nat i) : F))) (seq 0 (length x)) a1.
 End Fns.
